@@ -617,4 +617,279 @@ theorem sim_join {s : St} {c : Cycles.C} {ρ : Nat → Nat} (hs : Sim s c ρ) (d
               exact hc.bound _ this) g1 g2
         simpa [Cycles.C.without, List.filter_filter] using this
 
+/-! ## Part E: allocation (`New`, `Of`) extends the renaming -/
+
+theorem idxOf_getElem_of_nodup : ∀ (L : List Nat) (i : Nat) (hi : i < L.length), L.Nodup → L.idxOf L[i] = i := by
+  intro L
+  induction L with
+  | nil => intro i hi; simp at hi
+  | cons a L ih =>
+    intro i hi hn
+    rw [List.nodup_cons] at hn
+    cases i with
+    | zero => simp
+    | succ i =>
+      have hi' : i < L.length := by simpa using hi
+      have hne : a ≠ L[i] := fun e => hn.1 (e ▸ List.getElem_mem hi')
+      simp only [List.getElem_cons_succ, List.idxOf_cons]
+      have : (a == L[i]) = false := by simpa using hne
+      rw [this]; simp [ih i hi' hn.2]
+
+theorem map_idxOf_range (L : List Nat) (hn : L.Nodup) (n0 : Nat) :
+    L.map (fun x => n0 + L.idxOf x) = List.range' n0 L.length := by
+  apply List.ext_getElem
+  · simp
+  · intro i h1 h2
+    simp only [List.length_map] at h1
+    simp [idxOf_getElem_of_nodup L i h1 hn]
+
+/-- the renaming after an allocation: old cells keep their ids, the `j`-th cell of the new cycle gets id `size + j` -/
+def extend (ρ : Nat → Nat) (n0 : Nat) (L : List Nat) : Nat → Nat :=
+  fun i => if i < n0 then ρ i else n0 + L.idxOf i
+
+theorem sim_alloc {s : St} {c : Cycles.C} {ρ : Nat → Nat} (hs : Sim s c ρ) (h' : Heap) (r : Nat) (l : List Nat)
+    (vs : List Int) (a : Alloc s.h h' r l vs) (d : Nat) :
+    Sim ({ s with h := h' }.setReg d (some r)) ((c.fresh vs).1.setReg d (c.fresh vs).2) (extend ρ s.h.size (r :: l)) := by
+  have hlen : (r :: l).length = vs.length := by
+    have := congrArg List.length a.vals; simpa using this
+  have hvs : vs.isEmpty = false := by cases vs <;> simp_all
+  have hfresh : c.fresh vs = ({ c with vals := c.vals ++ vs, cycles := c.cycles ++ [List.range' c.vals.length vs.length] },
+      some c.vals.length) := by simp [Cycles.C.fresh, hvs]
+  rw [hfresh]
+  have hold : ∀ i, i < s.h.size → extend ρ s.h.size (r :: l) i = ρ i := fun i hi => by simp [extend, hi]
+  have hnew : ∀ i, i ∈ r :: l → extend ρ s.h.size (r :: l) i = s.h.size + (r :: l).idxOf i := fun i hi => by
+    have := ((a.fresh i).mp hi).1
+    have : ¬ i < s.h.size := by omega
+    simp [extend, this]
+  have hmapnew : (r :: l).map (extend ρ s.h.size (r :: l)) = List.range' c.vals.length vs.length := by
+    rw [hs.vlen, ← hlen, ← map_idxOf_range (r :: l) a.cyc.nodup s.h.size]
+    exact List.map_congr_left (fun x hx => hnew x hx)
+  have hmapold : ∀ m, Cyc s.h m → m.map (extend ρ s.h.size (r :: l)) = m.map ρ := fun m cm =>
+    List.map_congr_left (fun x hx => hold x (cm.bound x hx))
+  have hh : ({ s with h := h' }.setReg d (some r)).h = h' := rfl
+  have hr0 : (r :: l).idxOf r = 0 := by simp
+  refine ⟨rinv_setReg s h' d (some r) hs.rinv a.inv (by rw [a.size]; omega)
+      (fun q hq => by cases hq; exact a.cyc.bound r (by simp)), ?_, ?_, ?_, ?_, ?_, ?_, ?_, ?_⟩
+  · rw [hh, a.size]; simp [Cycles.C.setReg, hs.vlen]
+  · intro i hi
+    rw [hh] at hi ⊢
+    by_cases h0 : i < s.h.size
+    · rw [hold i h0, a.size]; have := hs.rlt i h0; omega
+    · have him : i ∈ r :: l := (a.fresh i).mpr ⟨by omega, hi⟩
+      rw [hnew i him, a.size, ← hlen]
+      have := List.idxOf_lt_length_of_mem him
+      omega
+  · intro i j hi hj e
+    rw [hh] at hi hj
+    by_cases h0 : i < s.h.size
+    · by_cases h1 : j < s.h.size
+      · rw [hold i h0, hold j h1] at e; exact hs.rinj i j h0 h1 e
+      · have hjm : j ∈ r :: l := (a.fresh j).mpr ⟨by omega, hj⟩
+        rw [hold i h0, hnew j hjm] at e; have := hs.rlt i h0; omega
+    · have him : i ∈ r :: l := (a.fresh i).mpr ⟨by omega, hi⟩
+      by_cases h1 : j < s.h.size
+      · rw [hnew i him, hold j h1] at e; have := hs.rlt j h1; omega
+      · have hjm : j ∈ r :: l := (a.fresh j).mpr ⟨by omega, hj⟩
+        rw [hnew i him, hnew j hjm] at e
+        have e' : (r :: l).idxOf i = (r :: l).idxOf j := by omega
+        have g1 := List.getElem_idxOf (List.idxOf_lt_length_of_mem him)
+        have g2 := List.getElem_idxOf (List.idxOf_lt_length_of_mem hjm)
+        rw [← g1, ← g2]; simp only [e']
+  · intro i hi
+    rw [hh] at hi ⊢
+    show (c.vals ++ vs).getD (extend ρ s.h.size (r :: l) i) 0 = h'.val i
+    by_cases h0 : i < s.h.size
+    · rw [hold i h0, a.val i h0, ← hs.val i h0]
+      have : ρ i < c.vals.length := by rw [hs.vlen]; exact hs.rlt i h0
+      simp [Cycles.C.val, List.getD_eq_getElem?_getD, List.getElem?_append_left this]
+    · have him : i ∈ r :: l := (a.fresh i).mpr ⟨by omega, hi⟩
+      have hk := List.idxOf_lt_length_of_mem him
+      rw [hnew i him, ← hs.vlen, List.getD_eq_getElem?_getD, List.getElem?_append_right (by omega)]
+      have e1 : c.vals.length + (r :: l).idxOf i - c.vals.length = (r :: l).idxOf i := by omega
+      rw [e1]
+      have hk' : (r :: l).idxOf i < vs.length := by rw [← hlen]; exact hk
+      rw [List.getElem?_eq_getElem hk']
+      have := a.vals
+      have e2 : vs[(r :: l).idxOf i] = ((r :: l).map h'.val)[(r :: l).idxOf i]'(by simpa using hk) := by
+        simp only [this]
+      rw [e2, List.getElem_map, List.getElem_idxOf hk]
+      rfl
+  · intro i
+    rw [creg_setReg, reg_setReg]
+    have h1 : ({ c with vals := c.vals ++ vs, cycles := c.cycles ++ [List.range' c.vals.length vs.length] } : Cycles.C).regs.length
+        = ({ s with h := h' } : St).regs.length := hs.rlen
+    rw [h1]
+    split
+    · simp only [Option.map_some]
+      rw [hnew r (by simp), hr0, hs.vlen]; rfl
+    · show c.reg i = (s.reg i).map _
+      rw [hs.regs i]
+      cases hq : s.reg i with
+      | none => rfl
+      | some q => simp only [Option.map_some]; rw [hold q (hs.rinv.regs i q hq)]
+  · simp [Cycles.C.setReg, St.setReg, hs.rlen]
+  · intro cy hcy
+    have hcy' : cy ∈ c.cycles ++ [List.range' c.vals.length vs.length] := hcy
+    rcases List.mem_append.mp hcy' with h1 | h1
+    · obtain ⟨m, cm, rfl⟩ := hs.cyc cy h1
+      refine ⟨m, ?_, (hmapold m cm).symm⟩
+      rw [hh]
+      exact cyc_frame s.h h' m cm (by rw [a.size]; omega) (fun k hk => a.nx k (cm.bound k hk))
+    · simp only [List.mem_singleton] at h1
+      exact ⟨r :: l, by rw [hh]; exact a.cyc, by rw [h1, hmapnew]⟩
+  · intro q hq
+    rw [hh] at hq
+    show ∃ cy ∈ c.cycles ++ [List.range' c.vals.length vs.length], _
+    by_cases h0 : q < s.h.size
+    · obtain ⟨cy, hcy, hm⟩ := hs.cover q h0
+      exact ⟨cy, List.mem_append.mpr (Or.inl hcy), by rw [hold q h0]; exact hm⟩
+    · have hqm : q ∈ r :: l := (a.fresh q).mpr ⟨by omega, hq⟩
+      refine ⟨_, List.mem_append.mpr (Or.inr (List.mem_singleton.mpr rfl)), ?_⟩
+      rw [← hmapnew]
+      exact List.mem_map.mpr ⟨q, hqm, rfl⟩
+
+/-! ## Part F: one step, histories -/
+
+theorem map_val_rho {s : St} {c : Cycles.C} {ρ : Nat → Nat} (hs : Sim s c ρ) (m : List Nat)
+    (hm : ∀ x ∈ m, x < s.h.size) : (m.map ρ).map c.val = m.map s.h.val := by
+  rw [List.map_map]
+  exact List.map_congr_left (fun x hx => hs.val x (hm x hx))
+
+/-- **one-step simulation**: same output, and the states are related again (under a possibly extended renaming) -/
+theorem step_sim {s : St} {c : Cycles.C} {ρ : Nat → Nat} (hs : Sim s c ρ) (op : Op) :
+    ∃ ρ', Sim (step s op).1 (Cycles.step c op).1 ρ' ∧ (step s op).2 = (Cycles.step c op).2 := by
+  have hi := hs.rinv.inv
+  cases op with
+  | of d vs =>
+    cases vs with
+    | nil =>
+      have h1 : of s.h [] = (s.h, none) := by simp [of, new]
+      have h2 : c.fresh [] = (c, none) := by simp [Cycles.C.fresh]
+      simp only [step, Cycles.step, h1, h2]
+      exact ⟨ρ, sim_setReg hs d none (by simp), trivial⟩
+    | cons v vs =>
+      obtain ⟨r, l, e, a⟩ := of_alloc s.h hi v vs
+      have h1 : of s.h (v :: vs) = ((of s.h (v :: vs)).1, some r) := by rw [← e]
+      refine ⟨extend ρ s.h.size (r :: l), ?_, by simp [step, Cycles.step]⟩
+      have := sim_alloc hs _ r l (v :: vs) a d
+      simp only [step, Cycles.step]
+      rw [h1]
+      exact this
+  | new d n =>
+    by_cases hn : n ≤ 0
+    · have h1 : new s.h n = (s.h, none) := by simp [new, hn]
+      have h0 : n.toNat = 0 := by omega
+      have h2 : c.fresh (List.replicate n.toNat 0) = (c, none) := by simp [Cycles.C.fresh, h0]
+      simp only [step, Cycles.step, h1, h2]
+      exact ⟨ρ, sim_setReg hs d none (by simp), trivial⟩
+    · obtain ⟨r, l, e, a⟩ := new_alloc s.h hi n (by omega)
+      have h1 : new s.h n = ((new s.h n).1, some r) := by rw [← e]
+      refine ⟨extend ρ s.h.size (r :: l), ?_, by simp [step, Cycles.step]⟩
+      have := sim_alloc hs _ r l _ a d
+      simp only [step, Cycles.step]
+      rw [h1]
+      exact this
+  | join d r t => exact ⟨ρ, sim_join hs d r t⟩
+  | pop d r => exact ⟨ρ, sim_pop hs d r⟩
+  | next d r =>
+    have hreg := hs.regs r
+    cases hr : s.reg r with
+    | none =>
+      rw [hr] at hreg
+      simp only [step, Cycles.step, hr, hreg, Option.map_none]
+      exact ⟨ρ, hs, trivial⟩
+    | some q =>
+      rw [hr] at hreg
+      have hq := hs.rinv.regs r q hr
+      obtain ⟨l, hc⟩ := cyc_exists s.h hi q hq
+      simp only [step, Cycles.step, hr, hreg, Option.map_some, cycleOf_eq hs q l hc]
+      refine ⟨ρ, ?_, trivial⟩
+      have e : ((q :: l).map ρ).getD 1 (ρ q) = ρ (s.h.nx q) := by
+        rw [cyc_nx_head hc]; cases l <;> simp
+      rw [e]
+      exact sim_setReg hs d (some (s.h.nx q)) (by intro x hx; cases hx; exact hi.nlt q hq)
+  | prev d r =>
+    have hreg := hs.regs r
+    cases hr : s.reg r with
+    | none =>
+      rw [hr] at hreg
+      simp only [step, Cycles.step, hr, hreg, Option.map_none]
+      exact ⟨ρ, hs, trivial⟩
+    | some q =>
+      rw [hr] at hreg
+      have hq := hs.rinv.regs r q hr
+      obtain ⟨l, hc⟩ := cyc_exists s.h hi q hq
+      simp only [step, Cycles.step, hr, hreg, Option.map_some, cycleOf_eq hs q l hc]
+      refine ⟨ρ, ?_, trivial⟩
+      have e : ((q :: l).map ρ).getLastD (ρ q) = ρ (s.h.pv q) := by
+        rw [cyc_pv hi hc, List.getLastD_map, List.getLastD_cons]
+      rw [e]
+      exact sim_setReg hs d (some (s.h.pv q)) (by intro x hx; cases hx; exact hi.plt q hq)
+  | at_ d r n =>
+    have hat := at_sim hs (s.reg r) (fun q hq => hs.rinv.regs r q hq) n
+    simp only [step, Cycles.step, hs.regs r, hat]
+    exact ⟨ρ, sim_setReg hs d _ (at_lt s.h hi (s.reg r) n (fun q hq => hs.rinv.regs r q hq)), trivial⟩
+  | peek r n =>
+    have hat := at_sim hs (s.reg r) (fun q hq => hs.rinv.regs r q hq) n
+    have hlt := at_lt s.h hi (s.reg r) n (fun q hq => hs.rinv.regs r q hq)
+    simp only [step, Cycles.step, hs.regs r, hat, peek]
+    cases hx : at_ s.h (s.reg r) n with
+    | none => exact ⟨ρ, hs, rfl⟩
+    | some x =>
+      simp only [Option.map_some]
+      exact ⟨ρ, hs, by rw [hs.val x (hlt x hx)]⟩
+  | len r =>
+    have hreg := hs.regs r
+    cases hr : s.reg r with
+    | none =>
+      rw [hr] at hreg
+      simp only [step, Cycles.step, hr, hreg, Option.map_none, len, scan]
+      exact ⟨ρ, hs, rfl⟩
+    | some q =>
+      rw [hr] at hreg
+      obtain ⟨l, hc⟩ := cyc_exists s.h hi q (hs.rinv.regs r q hr)
+      simp only [step, Cycles.step, hr, hreg, Option.map_some, cycleOf_eq hs q l hc, len, scan_cyc s.h q l hc none]
+      exact ⟨ρ, hs, by simp⟩
+  | each r k =>
+    have hreg := hs.regs r
+    cases hr : s.reg r with
+    | none =>
+      rw [hr] at hreg
+      simp only [step, Cycles.step, hr, hreg, Option.map_none, each, scan]
+      exact ⟨ρ, hs, rfl⟩
+    | some q =>
+      rw [hr] at hreg
+      obtain ⟨l, hc⟩ := cyc_exists s.h hi q (hs.rinv.regs r q hr)
+      simp only [step, Cycles.step, hr, hreg, Option.map_some, cycleOf_eq hs q l hc, each,
+        scan_cyc s.h q l hc (some k)]
+      refine ⟨ρ, hs, ?_⟩
+      rw [← List.map_take, map_val_rho hs _ (fun x hx => hc.bound x (List.mem_of_mem_take hx))]
+  | isEmpty r =>
+    simp only [step, Cycles.step, hs.regs r]
+    exact ⟨ρ, hs, by cases s.reg r <;> rfl⟩
+
+theorem sim_init : Sim ({} : St) ({} : Cycles.C) id := by
+  refine ⟨rinv_init, rfl, ?_, ?_, ?_, ?_, rfl, ?_, ?_⟩
+  · intro i hi; simp [Heap.size] at hi
+  · intro i j hi; simp [Heap.size] at hi
+  · intro i hi; simp [Heap.size] at hi
+  · intro i
+    rw [reg_init]
+    show (List.replicate 8 (none : Ptr)).getD i none = none
+    exact reg_init i
+  · intro cy hcy; simp at hcy
+  · intro q hq; simp [Heap.size] at hq
+
+/-- **the ring register machine refines the list-of-cycles reference**: from related states every history
+produces the same outputs -/
+theorem run_sim : ∀ (ops : List Op) (s : St) (c : Cycles.C) (ρ : Nat → Nat), Sim s c ρ →
+    run s ops = Cycles.run c ops := by
+  intro ops
+  induction ops with
+  | nil => intro s c ρ _; rfl
+  | cons op ops ih =>
+    intro s c ρ hs
+    obtain ⟨ρ', h1, h2⟩ := step_sim hs op
+    simp only [run, Cycles.run, h2, ih _ _ ρ' h1]
+
 end MdsVerif.Proofs.Ring
